@@ -67,6 +67,8 @@ type Scenario struct {
 	KillAt      int                 `json:"killat"`
 	CancelStart bool                `json:"cancelstart"` // the context given to Start is cancelled as soon as Start has returned
 	MaxSubmitMs int                 `json:"maxsubmitms"`
+	FailAt      int                 `json:"failat"` // >0: the FailAt-th durable write of the run fails (not executed, error returned)
+	Root        string              `json:"root"`   // non-empty: file-backed sqlite store in this directory
 
 	curTr, curK int
 	baseStatus  string
@@ -262,6 +264,15 @@ func (s *spy) w(kind string, id uuid.UUID, st *workflow.State, a *workflow.Actio
 	defer s.wmu.Unlock()
 	if s.failAt > 0 && len(s.writes)+1 == s.failAt {
 		s.failAt = -1
+		pl, obj := 0, "unknown"
+		if pr := s.nm[id]; pr != nil {
+			pl, obj = pr.pl, pr.nm.get(id)
+		}
+		m := ev{"ev": "WFail", "k": kind, "obj": obj, "st": "nil", "pl": pl}
+		if st != nil {
+			m["st"] = st.Status.String()
+		}
+		s.s.emit(pl, func() ev { return m })
 		return fmt.Errorf("injected write failure")
 	}
 	err := call()
@@ -388,10 +399,13 @@ func runEngine(rec *recorder, sc *Scenario) error {
 	defer s.close()
 	reg := mkReg(s)
 	v, err := newVault(ctx, reg)
+	if sc.Root != "" {
+		v, err = sqlite.New(ctx, sc.Root, reg)
+	}
 	if err != nil {
 		return err
 	}
-	sp := &spy{Vault: v, s: s, nm: map[uuid.UUID]*planRun{}, slow: time.Duration(sc.SlowStoreUs) * time.Microsecond}
+	sp := &spy{Vault: v, s: s, nm: map[uuid.UUID]*planRun{}, slow: time.Duration(sc.SlowStoreUs) * time.Microsecond, failAt: sc.FailAt}
 	ws, err := coercion.New(ctx, reg, sp)
 	if err != nil {
 		return err
@@ -422,6 +436,10 @@ func runEngine(rec *recorder, sc *Scenario) error {
 		}
 		sp.wmu.Unlock()
 		runs = append(runs, pr)
+		if sc.Root != "" {
+			fmt.Printf("PLANID %s\n", id)
+			os.Stdout.Sync()
+		}
 		if sc.Crash != "" {
 			pristine, err := v.Read(ctx, id)
 			if err != nil {
